@@ -154,6 +154,16 @@ CLAIMED["C15"] = dict(
     note=TB + "float accuracy of the re-basing inside a conversion is C06's",
     technique="Coq proof + extracted-model correspondence + program-family correspondence")
 
+CLAIMED["C20"] = dict(
+    text="The property is FALSE of the code (known finding complex-modulus, recorded in KNOWN_FINDINGS.txt). Coq theorems, parametric in libm's "
+         "hypot: construction/read-back are exactly the real conversion of the modulus with imaginary part +0 (complete characterisation of the "
+         "failure signature); the property does hold on the non-negative real axis; with autoconvert a same-base operator sees its right operand "
+         "replaced by the modulus, without autoconvert it is complex arithmetic; refutation witness new::<meter>(3+4i) = 5+0i; tie: Complex64/"
+         "Complex32 new/get/+/-/*/== over all quadrants, axes, signed zero imaginary parts, several units and base sets: each case is binned as "
+         "`property holds` / `fails exactly as recorded (implementation = model of the defective code)` -> KNOWN-FINDING / `fails differently` -> VIOLATION",
+    note=TB + "hypot is an oracle supplied per case by the harness; the property itself is not proved (it is refuted)",
+    technique="Coq characterisation + refutation theorem; extracted-model correspondence pins the failure signature")
+
 NOT_YET = "check under construction in this build phase; will be claimed once bin/check implements it"
 
 
